@@ -7,7 +7,6 @@ import (
 	"math/big"
 	"strings"
 
-	"github.com/ohler55/ojg/alt"
 	"github.com/ohler55/ojg/jp"
 	"github.com/ohler55/slip"
 	"github.com/ohler55/slip/pkg/flavors"
@@ -98,11 +97,31 @@ func setBag(s *slip.Scope, obj *flavors.Instance, value, path slip.Object, depth
 				// would change them all and a descent into the value just
 				// set never ends.
 				for _, loc := range x.Locate(obj.Any, 0) {
-					loc.MustSet(obj.Any, alt.Dup(v))
+					loc.MustSet(obj.Any, dupValue(v))
 				}
 			}
 		}
 	}
+}
+
+// dupValue makes a copy of the lists and maps of a bag value. The members
+// are kept as they are, a null member and a number of any size included.
+func dupValue(v any) any {
+	switch tv := v.(type) {
+	case []any:
+		dup := make([]any, len(tv))
+		for i, m := range tv {
+			dup[i] = dupValue(m)
+		}
+		return dup
+	case map[string]any:
+		dup := make(map[string]any, len(tv))
+		for k, m := range tv {
+			dup[k] = dupValue(m)
+		}
+		return dup
+	}
+	return v
 }
 
 // ObjectToBag is the same as slip.Simplify except for assoc lists which are
